@@ -123,15 +123,16 @@ def digest_forms(ctx):
                 found=repr(v)[:300], key_extra="envelope")
         # ... and get_manifest_digest(alg) is the hash under that very algorithm of the wrapped manifest bytes, on every path
         gm = repo.func("suit_generator.suit.envelope", "SuitBasicEnvelopeOperationsMixin.get_manifest_digest")
-        go = [o_ for o_ in Evaluator(repo, inline_depth=0).outcomes(gm) if o_.kind == "return"]
+        from .c01 import hash_parts
+        # SuitHash is followed into, so that the digest has one canonical form whichever of its methods produces it
+        go = [o_ for o_ in Evaluator(repo, inline_depth=2, inline_filter=lambda f: f.cls is not None and f.cls.name == "SuitHash").outcomes(gm) if o_.kind == "return"]
+        gmf = repo.func("suit_generator.suit.envelope", "SuitBasicEnvelopeOperationsMixin.get_manifest")
+        want_data = App("meth:to_cbor", (App("call", (Ref("func", gmf), Sym("param:self"))),))
         oks = []
         for o_ in go:
             for g_, t in cases(o_.value):
-                ok_t = isinstance(t, App) and t.op == "a2b_hex" and isinstance(t.args[0], App) and t.args[0].op == "call" and isinstance(t.args[0].args[0], Ref) \
-                    and t.args[0].args[0].obj.name == "hash" and isinstance(t.args[0].args[1], App) and t.args[0].args[1].op == "new" \
-                    and t.args[0].args[1].args[0].obj.name == "SuitHash" and t.args[0].args[1].args[-1] == Sym("param:alg") \
-                    and t.args[0].args[2] == App("meth:to_cbor", (App("call", (Ref("func", repo.func("suit_generator.suit.envelope", "SuitBasicEnvelopeOperationsMixin.get_manifest")), Sym("param:self"))),))
-                oks.append(ok_t)
+                hp = hash_parts(t)
+                oks.append(hp is not None and hp[0] == Sym("param:alg") and hp[1] == want_data)
         R.check("C05-D1a digest forms", bool(oks) and all(oks), "get_manifest_digest(alg) = SuitHash(alg).hash(wrapped manifest) on every path", mod=gm.module,
                 node=gm.node, function=ctx.fq(gm), expected="a2b_hex(SuitHash(alg).hash(self.get_manifest().to_cbor())) - no result reused across algorithms",
                 found=f"{[repr(o_.value)[:200] for o_ in go]}", key_extra="get_manifest_digest")
